@@ -494,6 +494,13 @@ func (r *rewriter) rewriteFile(f *ast.File) bool {
 			}
 			changed = true
 		}
+		if imp.Path.Value == `"github.com/ava-labs/avalanchego/utils/timer"` {
+			imp.Path.Value = strconv.Quote("github.com/ava-labs/hypersdk/internal/vshim/vtimer")
+			if imp.Name == nil {
+				imp.Name = ast.NewIdent("timer")
+			}
+			changed = true
+		}
 	}
 	if r.usedSched {
 		astutil.AddNamedImport(r.fset, f, "vsched", schedPath)
